@@ -4,8 +4,8 @@ CONSTANTS
   Gaps <- GapsJitter2
   T = 10
   D = 1
-  MaxEvents = 3
-  MaxFails = 2
+  MaxEvents = 4
+  MaxFails = 0
   Backoff = FALSE
   Closed = FALSE
   ObserveCb = FALSE
